@@ -466,6 +466,11 @@ def _eyes(n: int) -> np.ndarray:
 def _prep_iterators(mol: Molecules, shape: tuple[int, int, int], scale: float):
     # image slice must be integer so split it into two parts
     pos = mol.pos / scale
+    # Positions are float32, so a molecule on the (half-)pixel grid may come out of the
+    # division slightly off (e.g. 3.0 / 0.3 -> 9.999999). Snap it, otherwise its fragment
+    # is placed one voxel off or loses the first plane of the template.
+    snapped = np.round(pos * 2) / 2
+    pos = np.where(np.abs(pos - snapped) < 1e-4, snapped, pos).astype(np.float32)
     intpos = pos.astype(np.int32)
     residue = pos - intpos.astype(np.float32)
 
